@@ -37,7 +37,7 @@ from bounded.C04 import (ACT_CLASSES, REF_KINDS, gen_spec, build, make_X, make_r
 
 SCOPE = {
     'quick': 'seeded random sequential float64 nets from the C04 generator without max-pooling (depth 1-4 weight layers: Conv1d stride/dilation/padding, Linear, AvgPool1d, Flatten/Unflatten/Transpose, 16 element-wise activations), alphabet 2-5, length 6-14, 1-3 examples x 1-4 references (tensor one-hot/zeros/uniform/real; generated dinucleotide_shuffle / shuffle), every target, batch sizes 1..n*S+2: 450 nets for clauses M/A/H, 150 affine nets for clause L (incl. bias replacement), 100 direct calls of hypothetical_attributions; band 0<|delta_in|<1e-4 and kink-ambiguous cases excluded',
-    'thorough': 'same, 6000 nets, 1500 affine nets, 1000 direct calls',
+    'thorough': 'same, up to 15000 nets (time budget), 1500 affine nets, 1000 direct calls',
 }
 
 REL = 1e-9
@@ -276,7 +276,7 @@ def run(rep):
         rep.case(('affine', k), section='affine', sample={'spec': case['spec'], 'refs': case['refs']} if k < 1 else None)
     # clauses M, A, H
     n_excl = n_part = 0
-    n_main = 6000 if thorough else 450
+    n_main = 15000 if thorough else 450
     for k in range(n_main):
         if rep.out_of_time():
             rep.note('rescale section cut at %d of %d (time budget)' % (k, n_main))
